@@ -114,6 +114,44 @@ CATALOGUE = {
         ("in_return_expression", ["(println (c05_ext 1))"], "extern fn labs(x: int) -> int\nfn c05_ext(q: int) -> int {\n    return (labs q)\n}\n"),
     ],
 }
+# operator typing matrix (specification 4.4-4.6, 8.4): every binary operator x every ordered pair of scalar operand
+# types x prefix/infix x variable/literal operands; the entries the tables do not allow are ill-formed
+MATRIX_TYPES = {"int": ("c05_vi", "7"), "float": ("c05_vf", "2.5"), "bool": ("c05_vb", "true"), "string": ("c05_vs", '"s"')}
+MATRIX_LETS = ["let c05_vi: int = 7", "let c05_vf: float = 2.5", "let c05_vb: bool = true", 'let c05_vs: string = "s"']
+ARI, CMP, EQ, LOG = ["+", "-", "*", "/", "%"], ["<", "<=", ">", ">="], ["==", "!="], ["and", "or"]
+
+
+def matrix_allowed(op, l, r):
+    if op in ARI:
+        if op == "%":
+            return l == r == "int"
+        if op == "+" and l == r == "string":
+            return True             # string concatenation with + is documented in STDLIB / QUICK_REFERENCE
+        return l == r and l in ("int", "float")
+    if op in CMP:
+        return l == r and l in ("int", "float")
+    if op in EQ:
+        return l == r
+    return l == r == "bool"
+
+
+def matrix_variants():
+    out = []
+    for op in ARI + CMP + EQ + LOG:
+        for l in MATRIX_TYPES:
+            for r in MATRIX_TYPES:
+                if matrix_allowed(op, l, r):
+                    continue
+                for form in ("prefix", "infix"):
+                    for lk, rk in (("var", "lit"), ("lit", "var"), ("var", "var"), ("lit", "lit")):
+                        a = MATRIX_TYPES[l][0 if lk == "var" else 1]
+                        b = MATRIX_TYPES[r][0 if rk == "var" else 1]
+                        e = "(%s %s %s)" % (op, a, b) if form == "prefix" else "(%s %s %s)" % (a, op, b)
+                        out.append(("%s|%s|%s|%s|%s%s" % (op, l, r, form, lk, rk), MATRIX_LETS + ["(println %s)" % e], ""))
+    return out
+
+
+CATALOGUE["operator_matrix"] = matrix_variants()
 PLACEMENTS = ["main_top", "main_nested_block", "main_loop_body", "other_function", "shadow_body", "main_end"]
 
 
@@ -248,10 +286,26 @@ def variant_key(c):
     return "%s/%s" % (c["rule"], c["variant"])
 
 
+def is_gated(ctx, key):
+    import fnmatch
+    return any(key == g or fnmatch.fnmatchcase(key, g) for g in ctx.gated_variants)
+
+
+def matrix_job(args):
+    (widx, items) = args
+    ctx = make_ctx(200 + widx, "quick", {})
+    res = []
+    for (vname, pl) in items:
+        src = minimal_program("operator_matrix", vname, pl)
+        problems = [p for p in run_tools(ctx, src, "mx.nano") if p[1] != "inconclusive"]
+        res.append((vname, pl, problems, src if problems else None))
+    return res
+
+
 def run_case(ctx, c, ev):
     key = variant_key(c)
-    if key in ctx.gated_variants:
-        ev.exclude("known:" + key)
+    if is_gated(ctx, key):
+        ev.exclude("known:" + (key if not key.startswith("operator_matrix/") else "operator_matrix"))
         return
     if c["placement"] in ctx.gated_placements:
         ev.exclude("known_placement:" + c["placement"])
@@ -300,9 +354,26 @@ def main(tier):
     ctx = make_ctx(99, tier, {})
     ctx.tools.prewarm(ctx.dir)
     nviol = 0
+    import fnmatch
     for f in ctx.open:
         rp = os.path.join(common.VERIF, f["replay"][PROP])
-        problems = [p for p in run_tools(ctx, open(rp, encoding="utf-8", newline="").read(), "known.nano") if p[1] != "inconclusive"]
+        problems = []
+        if rp.endswith(".nano"):
+            problems = [p for p in run_tools(ctx, open(rp, encoding="utf-8", newline="").read(), "known.nano") if p[1] != "inconclusive"]
+        # an entry that gates catalogue variants is also reproduced through exactly those variants (any placement)
+        for gv in f.get("c05_variants", []):
+            if problems:
+                break
+            rule, _, vpat = gv.partition("/")
+            for (vname, _s, _d) in CATALOGUE.get(rule, []):
+                if problems or not (vname == vpat or fnmatch.fnmatchcase(vname, vpat)):
+                    continue
+                for pl in PLACEMENTS:
+                    problems = [p for p in run_tools(ctx, minimal_program(rule, vname, pl), "known.nano") if p[1] != "inconclusive"]
+                    if problems:
+                        break
+                if rule == "operator_matrix":
+                    break           # one representative entry per pattern
         if problems:
             common.report_known(PROP, "%s [%s]" % (f["what"], f["id"]))
             ev.known.append(f["id"])
@@ -318,10 +389,37 @@ def main(tier):
             nviol += 1
     # exhaustive pass over the catalogue at every placement on a minimal base program
     seen_viol = set()
+    # operator matrix: every ill-typed entry at the top of main and at one other placement, in parallel
+    import zlib
+    items = []
+    for (vname, _s, _d) in CATALOGUE["operator_matrix"]:
+        key = "operator_matrix/" + vname
+        if is_gated(ctx, key):
+            ev.exclude("known:operator_matrix", 2)
+            continue
+        others = [pl for pl in PLACEMENTS[1:] if pl not in ctx.gated_placements]
+        items.append((vname, "main_top"))
+        if others:
+            items.append((vname, others[zlib.crc32(vname.encode()) % len(others)]))
+    chunks = [items[i::common.NCPU] for i in range(common.NCPU)]
+    for lst in common.parallel_map(matrix_job, [(i, c) for i, c in enumerate(chunks) if c]):
+        for (vname, pl, problems, src) in lst:
+            key = "operator_matrix/" + vname
+            ev.case(key + pl, pl != "main_top" and not problems)
+            ev.cls("operator_matrix_cases")
+            root = "operator_matrix/" + "|".join(vname.split("|")[:3])
+            if problems and root not in seen_viol:
+                seen_viol.add(root)
+                p = common.save_replay(PROP, "matrix_%s_%s.nano" % (vname.replace("|", "_").replace("%", "mod").replace("/", "div").replace("<", "lt").replace(">", "gt").replace("=", "eq").replace("*", "mul").replace("+", "plus").replace("!", "not"), pl), src)
+                print("C05: %s at %s: %s: %s" % (key, pl, problems[0][0], problems[0][1]))
+                common.report_violation(PROP, p)
+                nviol += 1
     for rule, variants in sorted(CATALOGUE.items()):
+        if rule == "operator_matrix":
+            continue
         for (vname, _s, _d) in variants:
             key = "%s/%s" % (rule, vname)
-            if key in ctx.gated_variants:
+            if is_gated(ctx, key):
                 ev.exclude("known:" + key, len(PLACEMENTS))
                 continue
             for pl in PLACEMENTS:
@@ -347,18 +445,21 @@ def main(tier):
             ev.cls("worker_errors")
         fl = r["failure"]
         if fl:
-            if fl["payload"].get("key") in seen_viol:
+            fk = fl["payload"].get("key") or ""
+            if fk.startswith("operator_matrix/"):
+                fk = "operator_matrix/" + "|".join(fk[len("operator_matrix/"):].split("|")[:3])
+            if fk in seen_viol:
                 continue
             again = [bool([p for p in run_tools(ctx, fl["src"], "confirm.nano") if p[1] != "inconclusive"]) for _ in range(2)]
             if not all(again):
                 ev.inconclusive += 1
                 continue
-            seen_viol.add(fl["payload"].get("key"))
+            seen_viol.add(fk)
             p = common.save_replay(PROP, "mutant_seed%d_w%d.nano" % (common.seed(), r["widx"]), fl["src"])
             print("C05: %s" % fl["detail"])
             common.report_violation(PROP, p)
             nviol += 1
-    ev.extra["catalogue_rules"] = {k: [v[0] for v in vs] for k, vs in CATALOGUE.items()}
+    ev.extra["catalogue_rules"] = {k: ([v[0] for v in vs] if k != "operator_matrix" else "%d generated entries" % len(vs)) for k, vs in CATALOGUE.items()}
     ev.extra["gated_variants"] = sorted(ctx.gated_variants)
     if ev.classes.get("worker_errors"):
         ev.write()
